@@ -236,6 +236,37 @@ where
     }
 }
 
+#[cfg(all(futures_intrusive_verif, feature = "alloc"))]
+impl<MutexType: RawMutex, T> GenericOneshotBroadcastChannel<MutexType, T>
+where
+    T: Clone,
+{
+    /// Read-only snapshot of the internal state for the verification harness
+    pub fn verif_snapshot(
+        &self,
+        is_live: crate::verif::IsLive<'_>,
+    ) -> crate::verif::Snapshot {
+        let state = self.inner.lock();
+        let mut snap = crate::verif::Snapshot::default();
+        snap.scalars.push(("is_fulfilled", state.is_fulfilled as u64));
+        snap.scalars.push(("has_value", state.value.is_some() as u64));
+        snap.queues.push(crate::verif::snap_list(
+            "waiters",
+            &state.waiters,
+            is_live,
+            &|e: &RecvWaitQueueEntry| {
+                let code = match e.state {
+                    RecvPollState::Unregistered => 0,
+                    RecvPollState::Registered => 1,
+                    RecvPollState::Notified => 2,
+                };
+                (code, e.task.is_some(), 0)
+            },
+        ));
+        snap
+    }
+}
+
 // Export a non thread-safe version using NoopLock
 
 /// A [`GenericOneshotBroadcastChannel`] which is not thread-safe.
@@ -443,6 +474,59 @@ mod if_alloc {
                     channel: Some(self.inner.clone()),
                     wait_node: ListNode::new(RecvWaitQueueEntry::new()),
                     _phantom: PhantomData,
+                }
+            }
+        }
+
+        /// A handle for the verification harness which can take snapshots of
+        /// the shared state without acting as a sender or receiver.
+        #[cfg(futures_intrusive_verif)]
+        pub struct VerifOneshotBroadcastObserver<MutexType, T>
+        where
+            MutexType: RawMutex,
+            T: Clone + 'static,
+        {
+            inner: alloc::sync::Arc<
+                GenericOneshotChannelSharedState<MutexType, T>,
+            >,
+        }
+
+        #[cfg(futures_intrusive_verif)]
+        impl<MutexType, T> core::fmt::Debug for VerifOneshotBroadcastObserver<MutexType, T>
+        where
+            MutexType: RawMutex,
+            T: Clone + 'static,
+        {
+            fn fmt(&self, f: &mut core::fmt::Formatter) -> core::fmt::Result {
+                f.debug_struct("VerifOneshotBroadcastObserver").finish()
+            }
+        }
+
+        #[cfg(futures_intrusive_verif)]
+        impl<MutexType, T> VerifOneshotBroadcastObserver<MutexType, T>
+        where
+            MutexType: RawMutex,
+            T: Clone + 'static,
+        {
+            /// Read-only snapshot of the internal state
+            pub fn verif_snapshot(
+                &self,
+                is_live: crate::verif::IsLive<'_>,
+            ) -> crate::verif::Snapshot {
+                self.inner.channel.verif_snapshot(is_live)
+            }
+        }
+
+        #[cfg(futures_intrusive_verif)]
+        impl<MutexType, T> GenericOneshotBroadcastSender<MutexType, T>
+        where
+            MutexType: RawMutex,
+            T: Clone + 'static,
+        {
+            /// Returns an observer for the verification harness
+            pub fn verif_observer(&self) -> VerifOneshotBroadcastObserver<MutexType, T> {
+                VerifOneshotBroadcastObserver {
+                    inner: self.inner.clone(),
                 }
             }
         }
